@@ -102,19 +102,33 @@ UPEdits(d) ==
                  [p |-> <<"s">>, v |-> Alt(GetS(d, "s"), VS("q"), VS("p"))], [p |-> <<"t">>, v |-> VB(~GetS(d, "t").b)] }
     IN { <<e>> : e \in one }
 
-UCases == CASE Family = "UP" -> UP [] Family = "UB" -> UB [] Family = "UA" -> UA [] Family = "UT" -> UT [] Family = "UD" -> UD [] Family = "UI" -> UI
+(* l-value paths under update (C11): bindings whose path depends on data - a dynamic key, a conditional between data
+   objects or between script modules - re-evaluated by a tree update or by the binding-map updaters of that field *)
+ULExprsM == { Idx(Id("o"), Id("b")), Cond(Id("c"), Mem(Id("o"), "p"), Mem(Id("o2"), "p")), Mem(Cond(Id("c"), Id("o"), Id("o2")), "p"),
+              Mem(Idx(Id("l"), Id("i")), "v") }
+ULExprsS == { Cond(Id("c"), Mem(Id("m"), "f"), Mem(Id("x"), "f")), Mem(Cond(Id("c"), Id("m"), Id("x")), "f"), Cond(Id("c"), Mem(Id("m"), "f"), Id("a")) }
+UL ==    {FileS(<<Elem("v", <<Attr("model:", "v", EV(e))>>, <<>>)>>) : e \in ULExprsM}
+    \cup {FileS(<<Elem("v", <<Attr(f, "tap", EV(e))>>, <<>>)>>) : f \in {"bind", "catch"}, e \in ULExprsS}
+    \cup {FileS(<<Elem("v", <<Attr("change:", "p", EV(e))>>, <<>>)>>) : e \in ULExprsS}
+    \cup {FileS(<<Elem("w", <<>>, <<Elem("v", <<Attr("bind", "tap", EV(e)), Attr("plain", "q", EV(Id("a")))>>, <<>>)>>)>>) : e \in ULExprsS}
+    \cup {FileS(<<For(EV(Cond(Id("c"), Id("l"), Id("ol"))), "item", "index", "", <<Elem("v", <<Attr("model:", "v", EV(Id("item")))>>, <<>>)>>)>>)}
+ULEdits(d) == { <<[p |-> <<"c">>, v |-> VB(~GetS(d, "c").b)]>>,
+                <<[p |-> <<"b">>, v |-> Alt(GetS(d, "b"), VS("q"), VS("p"))]>>,
+                <<[p |-> <<"i">>, v |-> VI(0)]>>, <<[p |-> <<"a">>, v |-> Alt(GetS(d, "a"), VI(5), VI(1))]>> }
+
+UCases == CASE Family = "UL" -> UL [] Family = "UP" -> UP [] Family = "UB" -> UB [] Family = "UA" -> UA [] Family = "UT" -> UT [] Family = "UD" -> UD [] Family = "UI" -> UI
             [] Family = "US" -> US [] Family = "F2" -> F2 [] Family = "F4" -> F4 [] Family = "F5" -> F5 [] Family = "F6" -> F6
 
-UDatas == IF Family = "F6" THEN {DS} ELSE IF Family = "UP" THEN {DP} ELSE {D1, D5, D3}
+UDatas == IF Family = "F6" THEN {DS} ELSE IF Family = "UP" THEN {DP} ELSE IF Family = "UL" THEN {DL, DL2} ELSE {D1, D5, D3}
 
 IGroup == [p \in {files[i].path : i \in 1..Len(files)} |-> CHOOSE f \in {files[i] : i \in 1..Len(files)} : f.path = p]
-TreeOf(d) == RenderFile(IGroup, "a", d)
+TreeOf(d) == IF Family = "UL" THEN RenderFileMarked(IGroup, "a", d) ELSE RenderFile(IGroup, "a", d)   \* UL: trees carry the l-value paths
 
 (* edits for the scope family: every data field that a scope may shadow, one at a time and together *)
 F6Edits == { <<[p |-> <<n>>, v |-> VS("N" \o n)]>> : n \in {"x", "y", "item", "index", "m"} }
             \cup { <<[p |-> <<"x">>, v |-> VS("Nx")], [p |-> <<"item">>, v |-> VS("Nitem")], [p |-> <<"index">>, v |-> VS("Nindex")]>>,
                    <<[p |-> <<"l", "0">>, v |-> VS("NI0")]>>, <<[p |-> <<"l">>, v |-> VA(<<VS("I1"), VS("I0"), VS("I2")>>)]>> }
-EditMenu(d) == IF Family = "F6" THEN F6Edits ELSE IF Family = "UP" THEN UPEdits(d) ELSE EditsOn(d)
+EditMenu(d) == IF Family = "F6" THEN F6Edits ELSE IF Family = "UP" THEN UPEdits(d) ELSE IF Family = "UL" THEN ULEdits(d) ELSE EditsOn(d)
 
 CoverOf(kind, ps) == CASE kind = "exact" -> Exact(ps) [] kind = "coarse" -> Coarse(ps) [] OTHER -> Whole
 
@@ -143,6 +157,9 @@ BMUpdate(f, v) ==
 
 INext == IF Family = "UB"
          THEN \E f \in {"a", "b", "o", "l", "s", "f"}, v \in BmValues : BMUpdate(f, v)
+         ELSE IF Family = "UL"
+         THEN \/ \E es \in EditMenu(data), kind \in CoverKinds : Update(es, kind)
+              \/ \E es \in EditMenu(data) : BMUpdate(es[1].p[1], es[1].v)
          ELSE \E es \in EditMenu(data), kind \in CoverKinds : Update(es, kind)
 ISpec == IInit /\ [][INext]_ivars
 
